@@ -1,3 +1,4 @@
+//go:build verif
 // +build verif
 
 // HTTP-layer cases of spec/BrokerHTTP executed against the real handlers.
@@ -26,12 +27,18 @@ import (
 )
 
 type vHTTPReq struct {
-	Ep     string `json:"ep"`
-	Method string `json:"method"`
-	Body   string `json:"body"`
-	Nat    string `json:"nat"`
-	Mfile  string `json:"mfile"`
+	Ep      string `json:"ep"`
+	Method  string `json:"method"`
+	Body    string `json:"body"`
+	Nat     string `json:"nat"`
+	Mfile   string `json:"mfile"`
+	Framing string `json:"framing"`
 }
+
+// vOpaqueReader hides the concrete reader type so that nothing can learn the body length in advance.
+type vOpaqueReader struct{ r *bytes.Reader }
+
+func (o vOpaqueReader) Read(p []byte) (int, error) { return o.r.Read(p) }
 
 type vHTTPCase struct {
 	Idx int      `json:"idx"`
@@ -205,6 +212,13 @@ func vBuildRequest(c *vHTTPCase, seed int64, metricsPath string) (http.Handler, 
 		panic(err)
 	}
 	req.RemoteAddr = "192.0.2.9:1234"
+	if rq.Framing == "chunked" {
+		// what the server side of net/http presents for a chunked (or length-less HTTP/2) request
+		req.Body = ioutil.NopCloser(vOpaqueReader{bytes.NewReader(body)})
+		req.ContentLength = -1
+		req.TransferEncoding = []string{"chunked"}
+		req.GetBody = nil
+	}
 	switch rq.Nat {
 	case "absent":
 	case "empty":
